@@ -29,6 +29,11 @@ CLAIMED = {
   design_ref="DESIGN.md §3 C18",
   note="The expected document is encoding/json of the library's matches; the model under-constrains where the documentation is silent (-no-output, zero matches, order across files); glob subtleties are left to C20.",
   technique="deterministic simulation of the process boundary: seeded invocation histories of the real binary on a simulated-world disk vs CLI reference model + syscall-trace write-set invariant"),
+ "C20": dict(
+  text="Seeded search over directory trees materialised on the real file system (the simulated world) and relative/absolute star patterns derived from them, compared with a segment-wise reference glob over the model tree: exact set, no duplicates, regular files only. Claimed with the weakest simulation justification of the eight: the function is read-only and history-free; what the simulator owns is the world and the working directory. Exploration.",
+  design_ref="DESIGN.md §3 C20",
+  note="Reference is a recursive per-segment star matcher; star-only directory segments and ./.. are excluded as in the property; the exhaustive pattern x name enumeration of the quantifier is not built (that is bounded enumeration, not simulation).",
+  technique="deterministic simulation of the directory-tree world: seeded trees and patterns vs segment-wise reference glob model"),
 }
 
 NA = {
